@@ -349,6 +349,8 @@ func main() {
 	o.strs("counterReportOps", syncOps(findFunc(tally, "counter", "report"), map[string]bool{"value": true, "ReportCounter": true}), "(*counter).report")
 	o.strs("counterCachedReportOps", syncOps(findFunc(tally, "counter", "cachedReport"), map[string]bool{"value": true, "ReportCount": true}), "(*counter).cachedReport")
 	o.strs("counterReportGuards", guards(findFunc(tally, "counter", "report")), "(*counter).report guards")
+	o.strs("histogramReportOps", syncOps(findFunc(tally, "histogram", "report"), map[string]bool{"value": true, "ReportHistogramValueSamples": true, "ReportHistogramDurationSamples": true}), "(*histogram).report")
+	o.strs("histogramCachedReportOps", syncOps(findFunc(tally, "histogram", "cachedReport"), map[string]bool{"value": true, "ReportSamples": true}), "(*histogram).cachedReport")
 	o.strs("gaugeUpdateOps", syncOps(findFunc(tally, "gauge", "Update"), nil), "(*gauge).Update")
 	o.strs("gaugeValueOps", syncOps(findFunc(tally, "gauge", "value"), nil), "(*gauge).value")
 	o.strs("gaugeReportOps", syncOps(findFunc(tally, "gauge", "report"), map[string]bool{"value": true, "ReportGauge": true}), "(*gauge).report")
